@@ -1,4 +1,5 @@
 import BlobfinderModel.Proofs.Crop
+import Mathlib.Tactic.SplitIfs
 /-!
 # C13 — cropping returns the zero-padded window around each peak (both back-ends)
 
@@ -16,13 +17,13 @@ variable {α : Type} [OfNat α 0]
 `p0 - c + y`, column `p1 - c + x`, and zero wherever that lies outside the frame. -/
 theorem cropPixel_eq_window (frame : Int → Int → α) (fy fx c p0 p1 y x : Int) :
     cropPixel frame fy fx c p0 p1 y x = window frame fy fx (p0 - c + y) (p1 - c + x) := by
-  unfold cropPixel Gen.crop_cell Gen.crop_coord_y Gen.crop_coord_x window
-  have e1 : y + p0 - c = p0 - c + y := by omega
-  have e2 : x + p1 - c = p1 - c + x := by omega
-  simp only [e1, e2, Bool.or_eq_true, decide_eq_true_eq]
+  -- written to survive behaviour-preserving rewrites of the kernel (renamed locals, inlined or merged helpers, swapped
+  -- branches): whatever integer-linear condition the generated cell uses, both sides are compared case by case
+  unfold cropPixel Gen.crop_cell window
+  simp only [Bool.or_eq_true, Bool.and_eq_true, decide_eq_true_eq]
   by_cases hin : 0 ≤ p0 - c + y ∧ p0 - c + y < fy ∧ 0 ≤ p1 - c + x ∧ p1 - c + x < fx
-  · rw [if_pos hin, if_neg (by omega)]
-  · rw [if_neg hin, if_pos (by omega)]
+  · rw [if_pos hin]; split_ifs <;> first | (congr 1 <;> omega) | (exfalso; omega)
+  · rw [if_neg hin]; split_ifs <;> first | rfl | (exfalso; omega)
 
 /-- The per-pixel back-end never reads the frame outside `[0, fy) × [0, fx)`:
 its result is unchanged by any modification of `frame` outside the frame. -/
